@@ -163,6 +163,10 @@ func newType(ty an.Type) Type {
 					return Builtin{t: ty, name: basicTypeName(basic)}
 				}
 			} else if time, ok := an.NewTime(elem.Type()); ok {
+				// a named time type comes back as a *Named over a *Time
+				if named, isNamed := time.(*an.Named); isNamed {
+					time = named.Underlying
+				}
 				tyT := time.(*an.Time)
 				if tyT.IsDate {
 					return Builtin{t: ty, name: "date"}
